@@ -15,8 +15,10 @@
                                           algorithms: the rows reach `Sim` only through the scheduler)
     * stations in any order               `feasible_perm_stations`, `densify_equivariant`,
                                           `updateSchedules_equivariant`, `run_equivariant_stations` (the WHOLE
-                                          simulator `Acn.Sim.run`), `run_equivariant_stations_partial` (core only,
-                                          but from any state and with failing schedulers)
+                                          simulator `Acn.Sim.run`), `run_equivariant_stations_dict` /
+                                          `…_sorted` / `…_uncontrolled` (… with the modelled algorithms, tie-free
+                                          keys), `run_equivariant_stations_partial` (core only, but from any
+                                          state and with failing schedulers)
     * ties in a sort key                  `sort_perm_of_distinct_keys`
     * sessions / events in any order      `popCurrent_perm`, `plugins_commute`, `unplugs_commute`,
                                           `eventsStage_perm`, `run_perm_sessions` (the WHOLE simulator),
@@ -25,6 +27,7 @@
     * time shift by `k` periods           `updateSchedules_shift`, `run_shift` (the WHOLE simulator, `max_recompute`
                                           = None), `run_shift_anchored` (any `max_recompute`, an event in period 0),
                                           `run_shift_aligned` (`max_recompute = m`, `m ∣ k`, no event needed),
+                                          `run_shift_sorted` (… with the sorted / uncontrolled algorithms, None),
                                           `run_shift_from` (from any related states, errors included);
                                           event core only: `body_shift`, `run_shift_partial` (None),
                                           `run_shift_core` (every `max_recompute`, errors included)
@@ -38,6 +41,8 @@ import AcnProofs.Lemmas.EquivSimShiftCap
 import AcnProofs.Lemmas.EquivSimSessionsRun
 import AcnProofs.Lemmas.EquivSimShiftAligned
 import AcnProofs.Lemmas.EquivSimSorted
+import AcnProofs.Lemmas.EquivSimSortedStations
+import AcnProofs.Lemmas.EquivSortedShift
 import AcnProofs.C08
 
 set_option linter.unusedSectionVars false
@@ -399,22 +404,29 @@ variable {K : Type} [Field K] [LinearOrder K] [IsStrictOrderedRing K] [HasExp K]
    battery), peak, core (iteration, queue, occupancy, `_resolve`, `_last_schedule_update`, event
    history, `ev_history`, invocation periods), evsePilot (`EVSE.current_pilot`), noiseIdx, occLog.
 
-   (1) STATION REGISTRATION ORDER — `run_equivariant_stations`
+   (1) STATION REGISTRATION ORDER — `run_equivariant_stations`, `run_equivariant_stations_dict`,
+       `run_equivariant_stations_sorted`, `run_equivariant_stations_uncontrolled`
        outputs     pilots, rates, evsePilot, rows of occLog: σ-permuted (= equal keyed by station id);
                    evs (energies, rates, batteries), peak, core, noiseIdx: EQUAL.
-       schedulers  any pair with `SchedEquivariant σ sched sched'`; INSTANCES PROVED: scripted by station
-                   name, `{}` (`scripted_schedEquivariant`).
+       schedulers  any pair with `SchedEquivariant σ sched sched'` (equal association lists) or, weaker,
+                   `SchedEquivariantD σ sched sched'` (the same DICT in any listing order, and only where
+                   the original scheduler answers).  INSTANCES PROVED:
+                     scripted by station name, `{}`                     `scripted_schedEquivariant`
+                     `SortedSchedulingAlgo` and `RoundRobin` (all five sorts, continuous / finite EVSEs,
+                       any constraint rows; interruptible, no estimator), for runs in which no view
+                       handed out has a tie in the sort key       `run_equivariant_stations_sorted`
+                     `UncontrolledCharging`                       `run_equivariant_stations_uncontrolled`
+                   (for these the permuted scheduler is the adapter built from the permuted configuration
+                   and the network description with permuted columns, `SimSorted.reNet`).
        hypotheses  `PermOK`: σ a permutation of the station numbers, station ids pairwise different,
                    constant noise stream; the original run completes (no raise).  Both are necessary:
                    draws are consumed in station order, and a raise of `update_pilots` leaves the
-                   stations BEFORE the offender charged.
-       NOT PROVED  `SchedEquivariant` for the modelled sorted / uncontrolled algorithms
-                   (`SimSorted.sortedSched`): they emit the schedule dict in station order, so the
-                   answers to permuted views are equal as dicts but not as association lists, which is
-                   what `SchedEquivariant` literally asks for; and the equivariance of the greedy / RR
-                   allocation for tie-free keys (`sort_perm_of_distinct_keys` is the sorting step only) is
-                   not composed.  Checked by the harness on implementation pairs only.
-                   Runs that raise; non-constant noise (genuinely order-dependent).
+                   stations BEFORE the offender charged.  Sorted algorithms: `TieFree` on every view of
+                   the run — necessary too (stable sort of a station-ordered list).
+       NOT PROVED  `uninterrupted_charging = True` (`apply_minimum_charging_rate` sorts by remaining
+                   time — a second key that would need its own tie-freeness — and fills a rate vector
+                   sequentially); the rampdown estimator (stateful, outside `Sim`'s pure scheduler
+                   parameter).  Runs that raise; non-constant noise (genuinely order-dependent).
    (2) CONSTRAINT ORDER
        `Acn.Sim` has no constraint table.  The rows are read in two places of the real simulator:
        (a) `network.is_feasible` inside `_update_schedules` — warning only, no state; its verdict is
@@ -438,7 +450,8 @@ variable {K : Type} [Field K] [LinearOrder K] [IsStrictOrderedRing K] [HasExp K]
        NOT PROVED  runs that raise: only `run_perm_sessions_core` (cores of two completing runs) /
                    `run_perm_sessions_partial`; a station permutation combined with the session
                    permutation in ONE Sim-level statement (compose (1) and (3)).
-   (4) TIME SHIFT BY `k` — `run_shift`, `run_shift_anchored`, `run_shift_aligned`, `run_shift_from`
+   (4) TIME SHIFT BY `k` — `run_shift`, `run_shift_anchored`, `run_shift_aligned`, `run_shift_from`,
+       `run_shift_sorted`
        outputs     pilots, rates: `shiftMat k` (k zero columns in front); core: every timestamp + k, the
                    idle invocations `V` in front of `invoked`; evs: equal up to the shifted arrival /
                    departure fields; occLog: k all-vacant rows in front; peak, evsePilot, noiseIdx: EQUAL.
@@ -452,7 +465,10 @@ variable {K : Type} [Field K] [LinearOrder K] [IsStrictOrderedRing K] [HasExp K]
                      `max_recompute = m`, `m = 0 ∨ m ∣ k`          `run_shift_aligned`   completing runs
                    In the remaining case (`max_recompute = m`, nothing due in period 0, `m ∤ k`) the
                    statement is false (example after `run_shift_core`).
-       NOT PROVED  `SchedShiftInvariant` for the sorted algorithms (they answer all-zero rows, not `{}`,
+                   For the sorted algorithms (greedy / RR, all sorts, interruptible, no estimator) and
+                   uncontrolled charging: `SchedShiftInvariant` is proved (`run_shift_sorted`, for
+                   `max_recompute = None`, errors included).
+       NOT PROVED  the sorted algorithms with `max_recompute ≠ None` (they answer all-zero rows, not `{}`,
                    while idle: `SchedIdle` fails for them as stated); raising runs for `max_recompute ≠
                    None` at Sim level (the event core has them: `run_shift_core`). -/
 
@@ -965,6 +981,179 @@ example :
 
 end sessions_sorted_example
 
+section stations_sorted
+open Acn.Sim Acn.SimEquiv Acn.SimSorted Acn.Sorted
+variable {K : Type} [Field K] [LinearOrder K] [IsStrictOrderedRing K] [HasExp K]
+
+/-- CAPSTONE (stations, schedulers that answer with a dict).  `run_equivariant_stations` for the
+    weaker, one-sided requirement `SchedEquivariantD σ sched sched'`: whenever `sched` answers a view,
+    `sched'` answers every station-permuted view with the SAME DICT — the same `{station id ↦ pilots}`
+    entries, listed in any order (`_update_schedules` reads a schedule through membership, lookup and
+    the set of row lengths only: `updateSchedules_dictEq`).  Same conclusion: the permuted run
+    completes and the final states are `StEquiv σ`. -/
+theorem run_equivariant_stations_dict (σ : List Nat) (d : Station K) (cfg : Cfg K) (h : PermOK σ cfg)
+    {sched sched' : View K → Except EventCore.Err (Schedule K)} (hs : SchedEquivariantD σ sched sched')
+    (n : Nat) (r : State K) (hr : Sim.run cfg sched n (Sim.init cfg) = (r, none)) :
+    ∃ r', Sim.run (permCfg σ d cfg) sched' n (Sim.init (permCfg σ d cfg)) = (r', none) ∧ StEquiv σ r r' := by
+  obtain ⟨he, hsh, ho⟩ := init_equiv (d := d) h
+  exact run_equiv_stD h hs n he hsh ho hr
+
+/-- CAPSTONE (stations × the sorting-based algorithms).  Register the stations in the order `σ` and
+    build the algorithm from the permuted configuration and the network description with permuted
+    columns (`reNet`).  If no view handed out during the original run contains two sessions with the
+    same sort key (`TieFree`, on the sessions left by `remove_finished_sessions`; decidable form:
+    `tieFree_of_pairwise`), every run of the FULL simulator with `SortedSchedulingAlgo` or `RoundRobin`
+    (all five sort keys, continuous and finite-rate EVSEs, bisection / level scan / round-robin
+    increments, any network constraints with one coefficient / phasor per station; interruptible,
+    `estimate_max_rate = False`) that completes on the
+    original registration order completes on the permuted one, with `StEquiv σ` final states: pilots,
+    rates, `EVSE.current_pilot` equal keyed by station id; energies, peak, event core equal.
+    The tie hypothesis is necessary: `sorted` is stable and `network.active_evs` is in station order,
+    so with a tie the registration order decides who is served first (`ties` section below). -/
+theorem run_equivariant_stations_sorted [HasCeilNat K] (σ : List Nat) (d : Station K) (cfg : Cfg K)
+    (h : PermOK σ cfg) {net : NetInfo K} (hnet : NetOK cfg.stations.length net) (inf : K) (scfg : Config K)
+    (hu : scfg.uninterrupted = false) (n : Nat) (r : State K)
+    (hties : ∀ v ∈ runViews cfg (sortedSched net inf cfg scfg) n (Sim.init cfg), TieFree inf cfg scfg.sort v)
+    (hr : Sim.run cfg (sortedSched net inf cfg scfg) n (Sim.init cfg) = (r, none)) :
+    ∃ r', Sim.run (permCfg σ d cfg) (sortedSched (reNet σ net) inf (permCfg σ d cfg) scfg) n
+        (Sim.init (permCfg σ d cfg)) = (r', none) ∧ StEquiv σ r r' := by
+  have hg := run_guardView cfg (TieFree inf cfg scfg.sort) (sortedSched net inf cfg scfg) n (Sim.init cfg) hties
+  rw [← hg] at hr
+  exact run_equivariant_stations_dict σ d cfg h (sortedSched_equivariantD h hnet inf scfg hu) n r hr
+
+/-- CAPSTONE (stations × uncontrolled charging).  `OnePerStation`: the view lists at most one active
+    session per station (the simulator never hands out anything else; it is what makes
+    `{station: …}` independent of the order in which the dict is filled). -/
+theorem run_equivariant_stations_uncontrolled (σ : List Nat) (d : Station K) (cfg : Cfg K) (h : PermOK σ cfg)
+    (inf : K) (n : Nat) (r : State K)
+    (hone : ∀ v ∈ runViews cfg (uncontrolledSched inf cfg) n (Sim.init cfg), OnePerStation v)
+    (hr : Sim.run cfg (uncontrolledSched inf cfg) n (Sim.init cfg) = (r, none)) :
+    ∃ r', Sim.run (permCfg σ d cfg) (uncontrolledSched inf (permCfg σ d cfg)) n
+        (Sim.init (permCfg σ d cfg)) = (r', none) ∧ StEquiv σ r r' := by
+  have hg := run_guardView cfg OnePerStation (uncontrolledSched inf cfg) n (Sim.init cfg) hone
+  rw [← hg] at hr
+  exact run_equivariant_stations_dict σ d cfg h (uncontrolledSched_equivariantD h inf) n r hr
+
+end stations_sorted
+
+section stations_sorted_example
+open Acn.Sim Acn.SimEquiv Acn.SimSorted Acn.Sorted
+
+local instance : HasExp ℚ := ⟨fun x => x⟩
+local instance : HasCeilNat ℚ := ⟨fun x => (Rat.ceil x).toNat⟩
+
+theorem exSimLate_permOK : PermOK [1, 0] exSimLate :=
+  ⟨by decide, by show (exSimLate.stations.map (·.id)).Nodup; decide, constNoise_of_short (by simp [exSimLate])⟩
+
+theorem exNet_ok : NetOK exSimLate.stations.length exNet :=
+  ⟨by intro row hr; simp only [exNet, List.mem_cons, List.mem_nil_iff, or_false] at hr; rcases hr with rfl | rfl <;> rfl,
+   rfl, rfl⟩
+
+/-- the hypotheses of `run_equivariant_stations_sorted` are satisfiable: stations B, A instead of A, B,
+    earliest-deadline-first greedy and first-come-first-served round robin under two binding
+    constraints; every view of the run is tie-free (estimated departures 4 and 5, arrivals 1 and 2);
+    the runs complete; and the permuted runs have the rows swapped -/
+example :
+    (∀ scfg ∈ [exGreedy, exRR], ∃ r', Sim.run (permCfg [1, 0] ⟨"", .cont 0 none, 0⟩ exSimLate)
+        (sortedSched (reNet [1, 0] exNet) 1000000 (permCfg [1, 0] ⟨"", .cont 0 none, 0⟩ exSimLate) scfg) 9
+        (Sim.init (permCfg [1, 0] ⟨"", .cont 0 none, 0⟩ exSimLate)) = (r', none) ∧
+      StEquiv [1, 0] (Sim.run exSimLate (sortedSched exNet 1000000 exSimLate scfg) 9 (Sim.init exSimLate)).1 r') ∧
+    (Sim.run (permCfg [1, 0] ⟨"", .cont 0 none, 0⟩ exSimLate)
+        (sortedSched (reNet [1, 0] exNet) 1000000 (permCfg [1, 0] ⟨"", .cont 0 none, 0⟩ exSimLate) exGreedy) 9
+        (Sim.init (permCfg [1, 0] ⟨"", .cont 0 none, 0⟩ exSimLate))).1.pilots.rows
+      = [[0, 0, 0, 0, 16, 0, 0], [0, 30, 30, 0, 0, 0, 0]] ∧
+    (Sim.run (permCfg [1, 0] ⟨"", .cont 0 none, 0⟩ exSimLate)
+        (sortedSched (reNet [1, 0] exNet) 1000000 (permCfg [1, 0] ⟨"", .cont 0 none, 0⟩ exSimLate) exRR) 9
+        (Sim.init (permCfg [1, 0] ⟨"", .cont 0 none, 0⟩ exSimLate))).1.pilots.rows
+      = [[0, 0, 16, 0, 16, 0, 0], [0, 30, 14, 0, 0, 0, 0]] := by
+  refine ⟨?_, by decide +kernel, by decide +kernel⟩
+  intro scfg hs
+  simp only [List.mem_cons, List.mem_nil_iff, or_false] at hs
+  have hrun : (Sim.run exSimLate (sortedSched exNet 1000000 exSimLate scfg) 9 (Sim.init exSimLate)).2 = none := by
+    rcases hs with rfl | rfl <;> decide +kernel
+  have hties : ∀ v ∈ runViews exSimLate (sortedSched exNet 1000000 exSimLate scfg) 9 (Sim.init exSimLate),
+      (preOf (infraOf 1000000 exSimLate) exSimLate.period (v.active.map (sessionOfEv 1000000 v.iter))).Pairwise
+        (fun a b => Acn.C08.sameKey scfg.sort (infraOf 1000000 exSimLate) exSimLate.period (v.iter : Int) a b = false) := by
+    rcases hs with rfl | rfl <;> decide +kernel
+  exact run_equivariant_stations_sorted [1, 0] _ exSimLate exSimLate_permOK exNet_ok 1000000 scfg
+    (by rcases hs with rfl | rfl <;> rfl) 9 _
+    (fun v hv => tieFree_of_pairwise _ _ _ v (hties v hv)) (Prod.ext rfl hrun)
+
+/-- … and for uncontrolled charging (every view of a run lists at most one session per station) -/
+example : ∃ r', Sim.run (permCfg [1, 0] ⟨"", .cont 0 none, 0⟩ exSimLate)
+      (uncontrolledSched 1000000 (permCfg [1, 0] ⟨"", .cont 0 none, 0⟩ exSimLate)) 9
+      (Sim.init (permCfg [1, 0] ⟨"", .cont 0 none, 0⟩ exSimLate)) = (r', none) ∧
+    StEquiv [1, 0] (Sim.run exSimLate (uncontrolledSched 1000000 exSimLate) 9 (Sim.init exSimLate)).1 r' := by
+  have hrun : (Sim.run exSimLate (uncontrolledSched 1000000 exSimLate) 9 (Sim.init exSimLate)).2 = none := by
+    decide +kernel
+  have hone : ∀ v ∈ runViews exSimLate (uncontrolledSched 1000000 exSimLate) 9 (Sim.init exSimLate),
+      (v.active.map (·.station)).Nodup := by decide +kernel
+  exact run_equivariant_stations_uncontrolled [1, 0] _ exSimLate exSimLate_permOK 1000000 9 _ hone (Prod.ext rfl hrun)
+
+end stations_sorted_example
+
+section shift_sorted
+open Acn.Sim Acn.SimShift Acn.SimSorted Acn.Sorted
+variable {K : Type} [Field K] [LinearOrder K] [IsStrictOrderedRing K] [HasExp K]
+
+/-- CAPSTONE (shift × the modelled algorithms, `max_recompute = None`).  The sorting-based algorithms
+    (greedy and round robin, all five sorts — LLF reads `estimated_departure − now` —, interruptible, no
+    estimator) and uncontrolled charging see time only through arrival / estimated departure of the
+    sessions and the current period (`sortedSched_shiftInvariant`, `uncontrolledSched_shiftInvariant`):
+    `run_shift` applies to them as they are, the shifted scheduler being the adapter built from the
+    SHIFTED configuration.  Errors included, every fuel.  (With `max_recompute = m` these algorithms are
+    consulted in the idle prefix and answer all-zero rows instead of `{}`: `SchedIdle` fails for them
+    as stated and `run_shift_anchored` / `run_shift_aligned` do not apply.) -/
+theorem run_shift_sorted [HasCeilNat K] (k : Nat) (cfg : Cfg K) (h : ShiftOK cfg)
+    (mk : Cfg K → View K → Except EventCore.Err (Schedule K))
+    (hmk : (∃ net inf scfg, scfg.uninterrupted = false ∧ mk = fun c => sortedSched net inf c scfg) ∨
+      (∃ inf, mk = fun c => uncontrolledSched inf c))
+    (hmr : cfg.maxRecompute = none) (n : Nat) :
+    (Sim.run (shiftCfgS k cfg) (mk (shiftCfgS k cfg)) (k + n) (Sim.init (shiftCfgS k cfg))).2 =
+      (Sim.run cfg (mk cfg) n (Sim.init cfg)).2 ∧
+    ShEquiv k [] (List.replicate k (noneRow cfg)) (Sim.run cfg (mk cfg) n (Sim.init cfg)).1
+      (Sim.run (shiftCfgS k cfg) (mk (shiftCfgS k cfg)) (k + n) (Sim.init (shiftCfgS k cfg))).1 := by
+  rcases hmk with ⟨net, inf, scfg, hu, rfl⟩ | ⟨inf, rfl⟩
+  · exact run_shift k cfg h (sortedSched_shiftInvariant k net inf cfg scfg hu) hmr n
+  · exact run_shift k cfg h (uncontrolledSched_shiftInvariant k inf cfg) hmr n
+
+end shift_sorted
+
+section shift_sorted_example
+open Acn.Sim Acn.SimShift Acn.SimSorted Acn.Sorted
+
+local instance : HasExp ℚ := ⟨fun x => x⟩
+local instance : HasCeilNat ℚ := ⟨fun x => (Rat.ceil x).toNat⟩
+
+/-- `exSimLate` with `max_recompute = None` -/
+def exSimNone : Sim.Cfg ℚ := { exSimLate with maxRecompute := none }
+
+theorem exSimNone_ok : ShiftOK exSimNone :=
+  ⟨by decide, by decide,
+   by show ∀ x ∈ exSimNone.core.sessions, 0 ≤ x.departure; decide,
+   by show ∀ st ∈ exSimNone.stations, Evse.validRate (atolOf exSimNone st.kind) exSimNone.atolFinite st.kind 0 = true
+      decide +kernel⟩
+
+/-- the hypotheses of `run_shift_sorted` are satisfiable (least-laxity-first round robin under two
+    binding constraints, shift by 3), and what the two runs look like -/
+example :
+    ShEquiv 3 [] (List.replicate 3 (noneRow exSimNone))
+      (Sim.run exSimNone (sortedSched exNet 1000000 exSimNone { exRR with sort := .llf }) 9 (Sim.init exSimNone)).1
+      (Sim.run (shiftCfgS 3 exSimNone) (sortedSched exNet 1000000 (shiftCfgS 3 exSimNone) { exRR with sort := .llf })
+        (3 + 9) (Sim.init (shiftCfgS 3 exSimNone))).1 ∧
+    (Sim.run exSimNone (sortedSched exNet 1000000 exSimNone { exRR with sort := .llf }) 9 (Sim.init exSimNone)).2 = none ∧
+    (Sim.run (shiftCfgS 3 exSimNone) (sortedSched exNet 1000000 (shiftCfgS 3 exSimNone) { exRR with sort := .llf })
+        12 (Sim.init (shiftCfgS 3 exSimNone))).1.pilots.rows
+      = (Sim.run exSimNone (sortedSched exNet 1000000 exSimNone { exRR with sort := .llf }) 9
+          (Sim.init exSimNone)).1.pilots.rows.map ([0, 0, 0] ++ ·) ∧
+    (Sim.run exSimNone (sortedSched exNet 1000000 exSimNone { exRR with sort := .llf }) 9
+          (Sim.init exSimNone)).1.pilots.rows ≠ [[0, 0, 0, 0, 0, 0, 0], [0, 0, 0, 0, 0, 0, 0]] := by
+  refine ⟨?_, by decide +kernel, by decide +kernel, by decide +kernel⟩
+  exact (run_shift_sorted 3 exSimNone exSimNone_ok (fun c => sortedSched exNet 1000000 c { exRR with sort := .llf })
+    (Or.inl ⟨exNet, 1000000, { exRR with sort := .llf }, rfl, rfl⟩) rfl 9).2
+
+end shift_sorted_example
+
 section ties
 open Acn.Sorted
 variable {K : Type} [Field K] [LinearOrder K] [IsStrictOrderedRing K]
@@ -974,7 +1163,9 @@ variable {K : Type} [Field K] [LinearOrder K] [IsStrictOrderedRing K]
     share a sort key, every permutation of the input gives the same queue (all five keys).
     (With ties the order among equal keys is the input order, `Acn.C08.sorted_by_key` (iii) — and the
     input order is the station order, which is why C10's station-permutation relation is claimed
-    for distinct keys.) -/
+    for distinct keys: `run_equivariant_stations_sorted` composes this theorem with the equivariance
+    of the greedy / round-robin allocation.  The session-LISTING order never reaches the algorithms,
+    so `run_perm_sessions_sorted` needs no such hypothesis.) -/
 theorem sort_perm_of_distinct_keys (kind : SortKind) (infra : Infra K) (period : K) (time : Int)
     (l l' : List (Session K)) (hp : l'.Perm l)
     (hd : ∀ a ∈ l, ∀ b ∈ l, Acn.C08.sameKey kind infra period time a b = true → a = b) :
